@@ -496,6 +496,34 @@ def _run_graph(case, obs):
     r = go(_m["community"].louvain, what="louvain", budget=1_000_000 + 1000 * (n + arcs), **kw)
     if not is_crash(r):
         judge_louvain(obs, r, T, p)
+    # one neighbour function, a graph that changes between calls (an adjacency dict behind a callback is edited, the
+    # same callable is passed again): every call must answer for the graph as it is *now*.  Same node tuple, so a
+    # result remembered across calls under (nodes, callable) would be exposed.
+    if n >= 3 and T.edges >= 2 and case["as"] in ("list", "tuple"):
+        live = {u: list(ws) for u, ws in adj.items()}
+        nb = Neighbors(nodes, live, "list")
+        seq = tuple(nodes) if case["as"] == "tuple" else list(nodes)
+        top = max(T.core.values(), default=0)
+        ks = sorted({1, top})
+        for k in ks:
+            r = call(obs, _m["kcore"].kcore, seq, nb, k, budget=base, what=f"kcore(k={k}) [live graph, before edit]")
+            if not is_crash(r):
+                judge_kcore(obs, r, T, k)
+        victim = max(nodes, key=lambda v: (T.core.get(v, 0), len(T.radj.get(v, ())), repr(v)))
+        for u in live:
+            live[u] = [w for w in live[u] if w != victim] if u != victim else []
+        T3 = Truth(nodes, live)
+        obs.event("seq.same-callable-graph-edited")
+        for k in ks:
+            r = call(obs, _m["kcore"].kcore, seq, nb, k, budget=base, what=f"kcore(k={k}) [live graph, after edit]")
+            if not is_crash(r):
+                judge_kcore(obs, r, T3, k)
+        r = call(obs, _m["kcore"].kcore_decomposition, seq, nb, budget=base, what="kcore_decomposition [after edit]")
+        if not is_crash(r):
+            judge_core(obs, r, T3)
+        r = call(obs, _m["articulation"].articulation_points, seq, nb, budget=base, what="articulation_points [after edit]")
+        if not is_crash(r):
+            judge_ap(obs, r, T3)
     if stats["outside"]:
         obs.event("l2.neighbors-called-on-outside-label", stats["outside"])
     if not case["ordered"]:
